@@ -411,4 +411,16 @@ theorem replace_is_concat (E : Model.Eng) (rx : RX) (t : List Nat) (repl : Repl)
     simp only at this
     rw [← this]
     cases repl <;> simp only [modelF] <;> split <;> simp_all
+
+/-- the arguments handed to a function replacer (matched text, captures, offset, subject) are those
+    of §15.5.4.11 on an ASCII subject – in particular the offset is the code-unit position -/
+theorem replacerArgs_eq (t : List Nat) (ha : ascii t) (mt : Caps) (h : capStart mt ≤ t.length) :
+    Model.replacerArgs t mt = Spec.replacerArgs t mt := by
+  unfold Model.replacerArgs Spec.replacerArgs
+  have : Model.utf16Length (t.take (capStart mt)) = capStart mt := by
+    unfold Model.utf16Length
+    rw [unitsOfBytes_ascii _ (ascii_take t ha _)]
+    simp; omega
+  rw [this]
+  rfl
 end OttoVerif.C10.Lem
